@@ -389,14 +389,16 @@ SozuRaw(s, f) ==
 TxN(s, x) == IF InMap(s, x) /\ s.rem[x] > 0 /\ s.sw[x] > 0 THEN Min2(s.rem[x], s.sw[x]) ELSE 0
 RECURSIVE SumTx(_, _)
 SumTx(s, S) == IF S = {} THEN 0 ELSE LET x == CHOOSE y \in S : TRUE IN TxN(s, x) + SumTx(s, S \ {x})
+Sending(s) == {x \in OddSids : TxN(s, x) > 0}
 Drain(s) ==
   LET fin(x) == TxN(s, x) > 0 /\ TxN(s, x) = s.rem[x]
-  IN [s EXCEPT !.cw = @ - SumTx(s, OddSids),
+  IN IF Sending(s) = {} THEN s ELSE
+     [s EXCEPT !.cw = @ - SumTx(s, Sending(s)),
                !.sw = [x \in OddSids |-> IF fin(x) THEN 0 ELSE s.sw[x] - TxN(s, x)],
                !.rem = [x \in OddSids |-> s.rem[x] - TxN(s, x)],
                !.ss = [x \in OddSids |-> IF fin(x) THEN "closed" ELSE s.ss[x]]]
 \* the bytes a state is about to send: {[sid, n, fin]}
-TxSet(s) == {[sid |-> x, n |-> TxN(s, x), fin |-> TxN(s, x) = s.rem[x]] : x \in {y \in OddSids : TxN(s, y) > 0}}
+TxSet(s) == {[sid |-> x, n |-> TxN(s, x), fin |-> TxN(s, x) = s.rem[x]] : x \in Sending(s)}
 DrainRes(c) == IF c.s.gs THEN c ELSE [c EXCEPT !.s = Drain(c.s)]
 
 \* whatever the receiver does, a block with an inserting literal leaves the entry in the peer's encoder table;
